@@ -86,6 +86,21 @@ def handleRender (args : List Json) : Json :=
     | .error e => errJson e
     | .ok s => Json.mkObj [("out", js s)]
 
+def nodeJson : Node → Json
+  | .text s => jarr [jstr "text", js s]
+  | .output _ => jarr [jstr "output"]
+  | .tag name _ => jarr [jstr "tag", js name]
+  | .comment t => jarr [jstr "comment", js t]
+  | .doc t => jarr [jstr "doc", js t]
+  | .illegal => jarr [jstr "illegal"]
+
+/-- `["c10_nodes", delims, pieces]` → the parsed node list -/
+def handleNodes (args : List Json) : Json :=
+  withInput args fun d ps =>
+    match nodesOf d ps with
+    | .error e => errJson e
+    | .ok ns => Json.mkObj [("nodes", jarr (ns.map nodeJson))]
+
 /-- `["c10_spaces", lo, hi]` → code points in `[lo, hi)` that the model treats as whitespace -/
 def handleSpaces (args : List Json) : Json :=
   match args with
@@ -105,7 +120,7 @@ def handleStrip (args : List Json) : Json :=
   | _ => jerr "bad-args"
 
 def commands : List (String × (List Lean.Json → Lean.Json)) :=
-  [("c10_match", handleMatch), ("c10_tokens", handleTokens), ("c10_render", handleRender),
+  [("c10_match", handleMatch), ("c10_tokens", handleTokens), ("c10_render", handleRender), ("c10_nodes", handleNodes),
    ("c10_spaces", handleSpaces), ("c10_strip", handleStrip)]
 
 end Driver.C10
